@@ -4,13 +4,33 @@
 
    Vocabulary (Model/Dups.v, Proofs/Dups*.v):
      PermForest top top'  siblings reordered at any level of the annotation
-     Respell top top'     same annotation after forgetting the spelling of every
-                          tag (short_tag, original text); the folded short form
-                          and the attributes of the resolved node are kept
-     Fx / Orig            the repaired duplicate check (canonical folded sort
-                          key, folded short-form equality) / the code as it is
+     Respell top top'     the two annotations agree after forgetting, for every tag,
+                          the two fields that hold its SPELLING (short_tag text and
+                          case-folded original text); the case-folded short form and
+                          the attributes of the resolved schema node are kept
+     Fx                   THE CODE AS IT IS (current /repo, harness FIXED = True):
+                          [mode_of true], i.e. with fix commits 7597eca (canonical,
+                          case-folded sort key), 2492808 (tag equality = equality of the
+                          case-folded short form) and 3e47c8c (repeated groups of empty
+                          groups reported instead of IndexError)
+     Orig                 [mode_of false]: the behaviour BEFORE those fix commits; it no
+                          longer exists in /repo and appears only in the theorems named
+                          *_refuted_* / *_before_fix, which are the record of the repaired
+                          defects (former findings C04-F1, C04-F2; see known_findings.json "fixed")
+     Half                 a partial repair that was never committed (canonical group key and
+                          folded equality, tags still ordered by case-sensitive text)
      wft                  folded short forms are non-empty and free of ",()"
-     noempty_t            no empty group *)
+
+   What is a result and what is an input.  The theorems about sibling ORDER are results
+   about the modelled rules.  Of the theorems about SPELLING only the ones for the
+   duplicate check have content (the sort key and the equality really read the spelled
+   text, and before 2492808 they depended on it); for the placement, unique/required,
+   Duration/Delay and Onset rules spelling invariance holds BY CONSTRUCTION, because these
+   rules never read the two spelling fields.  That another valid spelling (short / partial /
+   full path, other letter case) of a tag yields the same folded short form, base tag and
+   attributes is NOT proved here: it is the statement of property C03 and an input of this
+   model (the harness reads those values from the implementation's HedTag objects).
+   Basic-phase checks and re-blanking: tested only (metamorphic oracle). *)
 From Coq Require Import List NArith Permutation Sorted.
 From HV Require Import Base.Res Base.Str Model.Dups Gen.C04Codes
   Proofs.DupsProofs Proofs.DupsCount Proofs.DupsRules Proofs.DupsKey Proofs.DupsSession Proofs.DupsOnset.
@@ -28,10 +48,29 @@ Theorem C04_placement_invariant_order : forall top top',
 Proof. exact placement_perm. Qed.
 Print Assumptions C04_placement_invariant_order.
 
+(* by construction: the placement rules do not read the spelling fields (see header) *)
 Theorem C04_placement_invariant_spelling : forall top top',
   Respell top top' -> tag_level_issues top = tag_level_issues top'.
 Proof. exact placement_respell. Qed.
 Print Assumptions C04_placement_invariant_spelling.
+
+(* the empty-group rule: an empty group "()" anywhere in the annotation is reported
+   (HED_GROUP_EMPTY, published as TAG_EMPTY -- C04_empty_group_code), and only then *)
+Theorem C04_empty_group_reported : forall top,
+  existsb has_empty_group top = true ->
+  exists iss, tag_level_issues top = Ok iss /\ In K_GROUP_EMPTY iss.
+Proof. exact empty_group_reported. Qed.
+Print Assumptions C04_empty_group_reported.
+
+Theorem C04_empty_group_only : forall top,
+  existsb has_empty_group top = false ->
+  exists iss, tag_level_issues top = Ok iss /\ ~ In K_GROUP_EMPTY iss.
+Proof. exact empty_group_only. Qed.
+Print Assumptions C04_empty_group_only.
+
+Theorem C04_empty_group_code : code_of K_GROUP_EMPTY = 1.   (* 1 = TAG_EMPTY in Gen/C04Codes.v *)
+Proof. exact empty_group_code. Qed.
+Print Assumptions C04_empty_group_code.
 
 (* ---- unique / required tags, Duration / Delay groups ---- *)
 
@@ -45,6 +84,7 @@ Theorem C04_duration_invariant_order : forall top top',
 Proof. exact duration_perm. Qed.
 Print Assumptions C04_duration_invariant_order.
 
+(* by construction: these rules do not read the spelling fields (see header) *)
 Theorem C04_unique_required_duration_invariant_spelling : forall nreq nuniq top top',
   Respell top top' ->
   all_tags_issues nreq nuniq top = all_tags_issues nreq nuniq top' /\
@@ -53,10 +93,19 @@ Proof. exact other_rules_respell. Qed.
 Print Assumptions C04_unique_required_duration_invariant_spelling.
 
 (* ---- duplicate detection ----
-   Full statement (FALSE of the code as it is):
+   The code as it is (Fx): invariance under sibling order and spelling, completeness at any
+   depth and totality are proved below for all well-formed trees.
+
+   RECORD OF REPAIRED DEFECTS.  The four theorems named *_refuted_* are about mode Orig /
+   Half, i.e. about behaviour that is no longer in /repo; they document what the statement
      forall top top', PermForest top top' \/ Respell top top' ->
-       dup_issue_count Orig top = dup_issue_count Orig top'.
-   Refuted below by three witnesses; proved for the repaired variant Fx. *)
+       dup_issue_count m top = dup_issue_count m top'
+   was false of, and why each part of the repair is needed:
+     refuted_order      behaviour before fix commit 7597eca (former finding C04-F1)
+     refuted_spelling   behaviour before fix commit 2492808 (former finding C04-F2)
+     count_refuted      behaviour before fix commit 2492808 (count depends on sibling order)
+     refuted_half_fix   a partial repair that was never committed
+   They do NOT say that the property is false of the implementation. *)
 
 Theorem C04_dup_invariant_refuted_order :
   PermForest w_order_1 w_order_2 /\ forallb wft w_order_1 = true /\
@@ -79,8 +128,9 @@ Theorem C04_dup_count_refuted_order :
 Proof. exact dup_count_refuted_order. Qed.
 Print Assumptions C04_dup_count_refuted_order.
 
-(* a repair that folds the equality and canonicalises the group key but keeps
-   ordering tags by the case-sensitive text is still order dependent *)
+(* a partial repair (never committed) that folds the equality and canonicalises the group
+   key but keeps ordering tags by the case-sensitive text would still be order dependent;
+   last two conjuncts: the code as it is reports the repeat in both orders *)
 Theorem C04_dup_invariant_refuted_half_fix :
   check_for_duplicate_groups Half w_half_1 = Ok [] /\
   check_for_duplicate_groups Orig w_half_1 = Ok [] /\
@@ -90,44 +140,64 @@ Theorem C04_dup_invariant_refuted_half_fix :
 Proof. exact dup_invariant_refuted_half_fix. Qed.
 Print Assumptions C04_dup_invariant_refuted_half_fix.
 
+(* the code as it is *)
 Theorem C04_dup_invariant_order_fixed : forall top top',
-  PermForest top top' -> forallb wft top = true -> forallb noempty_t top = true ->
+  PermForest top top' -> forallb wft top = true ->
   exists iss, check_for_duplicate_groups Fx top = Ok iss /\
               check_for_duplicate_groups Fx top' = Ok iss.
 Proof. exact check_dup_perm_fixed. Qed.
 Print Assumptions C04_dup_invariant_order_fixed.
 
 Theorem C04_dup_count_invariant_order_fixed : forall top top',
-  PermForest top top' -> forallb wft top = true -> forallb noempty_t top = true ->
+  PermForest top top' -> forallb wft top = true ->
   exists n, dup_issue_count Fx top = Some n /\ dup_issue_count Fx top' = Some n.
 Proof. exact dup_count_perm_fixed. Qed.
 Print Assumptions C04_dup_count_invariant_order_fixed.
 
+(* a result, not by construction: the sort key and the equality read the spelled text
+   (before fix commit 2492808 the outcome depended on it: C04_dup_invariant_refuted_spelling) *)
 Theorem C04_dup_invariant_spelling_fixed : forall top top',
-  Respell top top' -> forallb wft top = true -> forallb noempty_t top = true ->
+  Respell top top' -> forallb wft top = true ->
   exists iss, check_for_duplicate_groups Fx top = Ok iss /\
               check_for_duplicate_groups Fx top' = Ok iss.
 Proof. exact check_dup_respell_fixed. Qed.
 Print Assumptions C04_dup_invariant_spelling_fixed.
 
-(* two siblings equal up to recursive reordering or spelling are reported *)
-Theorem C04_dup_complete_fixed : forall l1 a l2 b l3,
-  let top := l1 ++ a :: l2 ++ b :: l3 in
-  forallb wft top = true -> forallb noempty_t top = true ->
+(* "a repeated tag or group is reported no matter where the two copies sit or how their own
+   members are ordered": two members a, b of the top level or of ANY group at any depth
+   (all_levels top) that are equal up to recursive reordering or spelling are reported -- as
+   K_TAG_REPEATED when they are tags, as K_TAG_REPEATED_GROUP when they are groups *)
+Theorem C04_dup_complete_fixed : forall top g l1 a l2 b l3,
+  forallb wft top = true -> In g (all_levels top) -> g = l1 ++ a :: l2 ++ b :: l3 ->
   (PermTree a b \/ strip a = strip b) ->
-  exists k iss, check_for_duplicate_groups Fx top = Ok (k :: iss).
+  exists iss, check_for_duplicate_groups Fx top = Ok iss /\ In (kind_of_tree a) iss.
 Proof. exact check_dup_complete_fixed. Qed.
 Print Assumptions C04_dup_complete_fixed.
 
-(* the text key of the repaired sort can be decoded uniquely *)
+(* since fix commit 3e47c8c the duplicate check, the group rules and the full-string
+   checks are total (no hypothesis on the annotation) *)
+Theorem C04_dup_check_never_raises : forall top, exists iss, check_for_duplicate_groups Fx top = Ok iss.
+Proof. exact check_dup_never_raises. Qed.
+Print Assumptions C04_dup_check_never_raises.
+
+Theorem C04_group_rules_never_raise : forall nreq nuniq top, exists iss, group_checks Fx nreq nuniq top = Ok iss.
+Proof. exact group_checks_never_raise. Qed.
+Print Assumptions C04_group_rules_never_raise.
+
+Theorem C04_full_string_checks_never_raise : forall nreq nuniq top,
+  exists iss, full_string_checks Fx nreq nuniq top = Ok iss.
+Proof. exact full_checks_never_raise. Qed.
+Print Assumptions C04_full_string_checks_never_raise.
+
+(* the text key of the canonical sort (HedGroup._sort_key) can be decoded uniquely *)
 Theorem C04_canonical_key_injective : forall v w,
   wfc (canon v) = true -> wfc (canon w) = true -> vkey Fx v = vkey Fx w -> veq Fx v w = true.
 Proof. exact vkey_injective. Qed.
 Print Assumptions C04_canonical_key_injective.
 
 (* What the check needs of the key of the second (canonical) sort, with the
-   sorted view recomputed for an ARBITRARY key ([sorted_view_k]; the repaired
-   code is the instance key = _sort_key = vkey Fx):
+   sorted view recomputed for an ARBITRARY key ([sorted_view_k]; the code as it
+   is is the instance key = _sort_key = vkey Fx):
    a key that only depends on the canonical form and separates well-formed
    canonical forms -- in particular groups that differ only in nesting --
    gives order invariance ... *)
@@ -173,10 +243,10 @@ Print Assumptions C04_sort_is_stable_sort.
 
 (* ---- all group rules together ---- *)
 
-(* repaired variant: the multiset of issues (hence of published codes) is
+(* the code as it is: the multiset of issues (hence of published codes) is
    unchanged by sibling reordering ... *)
 Theorem C04_group_rules_invariant_order_fixed : forall nreq nuniq top top',
-  PermForest top top' -> forallb wft top = true -> forallb noempty_t top = true ->
+  PermForest top top' -> forallb wft top = true ->
   exists l l', group_checks Fx nreq nuniq top = Ok l /\ group_checks Fx nreq nuniq top' = Ok l' /\
                Permutation l l'.
 Proof. exact group_checks_perm_fixed. Qed.
@@ -184,12 +254,14 @@ Print Assumptions C04_group_rules_invariant_order_fixed.
 
 (* ... and by respelling *)
 Theorem C04_group_rules_invariant_spelling_fixed : forall nreq nuniq top top',
-  Respell top top' -> forallb wft top = true -> forallb noempty_t top = true ->
+  Respell top top' -> forallb wft top = true ->
   exists l, group_checks Fx nreq nuniq top = Ok l /\ group_checks Fx nreq nuniq top' = Ok l.
 Proof. exact group_checks_respell_fixed. Qed.
 Print Assumptions C04_group_rules_invariant_spelling_fixed.
 
-(* the code as it is (any variant m): everything except the duplicate reports is invariant *)
+(* for EVERY state m of the duplicate check (before or after the fix commits): everything
+   except the duplicate reports is invariant -- the repaired defects were confined to the
+   duplicate check *)
 Theorem C04_group_rules_invariant_order_partial : forall m nreq nuniq top top',
   PermForest top top' ->
   forall d d', check_for_duplicate_groups m top = Ok d -> check_for_duplicate_groups m top' = Ok d' ->
@@ -213,6 +285,7 @@ Theorem C04_onset_invariant_order : forall top top',
 Proof. exact onset_perm. Qed.
 Print Assumptions C04_onset_invariant_order.
 
+(* by construction: the rule does not read the spelling fields (see header) *)
 Theorem C04_onset_invariant_spelling : forall top top',
   Respell top top' -> validate_onset_offset top = validate_onset_offset top'.
 Proof. exact onset_respell. Qed.
@@ -225,26 +298,31 @@ Theorem C04_onset_order_refuted_unresolved_def :
 Proof. exact onset_order_refuted_unresolved_def. Qed.
 Print Assumptions C04_onset_order_refuted_unresolved_def.
 
-(* HedValidator.run_full_string_checks as a whole (repaired code): the multiset of
+(* HedValidator.run_full_string_checks as a whole (the code as it is): the multiset of
    published codes is unchanged by sibling reordering, the list by respelling *)
 Theorem C04_full_string_checks_invariant_order_fixed : forall nreq nuniq top top',
-  PermForest top top' -> forallb wft top = true -> forallb noempty_t top = true -> okl top = true ->
+  PermForest top top' -> forallb wft top = true -> okl top = true ->
   exists l l', full_string_checks Fx nreq nuniq top = Ok l /\ full_string_checks Fx nreq nuniq top' = Ok l' /\
                Permutation (map code_of l) (map code_of l').
 Proof. exact full_checks_perm_fixed. Qed.
 Print Assumptions C04_full_string_checks_invariant_order_fixed.
 
 Theorem C04_full_string_checks_invariant_spelling_fixed : forall nreq nuniq top top',
-  Respell top top' -> forallb wft top = true -> forallb noempty_t top = true ->
+  Respell top top' -> forallb wft top = true ->
   exists l, full_string_checks Fx nreq nuniq top = Ok l /\ full_string_checks Fx nreq nuniq top' = Ok l.
 Proof. exact full_checks_respell_fixed. Qed.
 Print Assumptions C04_full_string_checks_invariant_spelling_fixed.
 
 (* ---- sessions: rows validated one after the other with one object ----
-   The group rules keep no state: the verdict of a row after any history is the
-   verdict of the row alone, so the invariance theorems hold after any history.
-   (Tag resolution is an input of the model; that the schema object does not
-   remember earlier spellings is TESTED by the history oracle, not proved here.) *)
+   BY CONSTRUCTION OF THE MODEL: session_step returns the session object unchanged, because
+   the modelled rules (GroupValidator, DefValidator.validate_onset_offset, HedGroup, HedTag)
+   assign to nothing that outlives a call.  C04_session_state_constant and
+   C04_history_independent are therefore immediate from the definition, and
+   C04_history_order_invariant / _spelling_invariant restate the theorems above after an
+   arbitrary history; they record the claim, they do not establish it for the implementation.
+   What could carry history in the implementation is the schema object behind tag resolution
+   (an input of this model): that it does not is TESTED by the history stream of
+   harness/c04.py (one schema object over a sequence of annotations vs a fresh one). *)
 Theorem C04_history_independent : forall s h row,
   nth (length h) (snd (session_run s (h ++ [row]))) (Exn Unmodelled)
   = group_checks (s_mode s) (s_nreq s) (s_nuniq s) row.
@@ -256,7 +334,7 @@ Proof. exact session_state_constant. Qed.
 Print Assumptions C04_session_state_constant.
 
 Theorem C04_history_order_invariant : forall nreq nuniq h h' top top',
-  PermForest top top' -> forallb wft top = true -> forallb noempty_t top = true ->
+  PermForest top top' -> forallb wft top = true ->
   exists l l',
     nth (length h) (snd (session_run (fixed_session nreq nuniq) (h ++ [top]))) (Exn Unmodelled) = Ok l /\
     nth (length h') (snd (session_run (fixed_session nreq nuniq) (h' ++ [top']))) (Exn Unmodelled) = Ok l' /\
@@ -265,7 +343,7 @@ Proof. exact history_order_invariant. Qed.
 Print Assumptions C04_history_order_invariant.
 
 Theorem C04_history_spelling_invariant : forall nreq nuniq h h' top top',
-  Respell top top' -> forallb wft top = true -> forallb noempty_t top = true ->
+  Respell top top' -> forallb wft top = true ->
   exists l,
     nth (length h) (snd (session_run (fixed_session nreq nuniq) (h ++ [top]))) (Exn Unmodelled) = Ok l /\
     nth (length h') (snd (session_run (fixed_session nreq nuniq) (h' ++ [top']))) (Exn Unmodelled) = Ok l.
@@ -280,7 +358,22 @@ Example C04_nonvacuous :
   check_for_duplicate_groups Fx ex_nested' = Ok [K_TAG_REPEATED_GROUP].
 Proof. exact ex_nested_ok. Qed.
 
-(* the check raises IndexError on a repeated group that begins with an empty group *)
-Example C04_dup_raises_on_empty_group :
+(* RECORD of the defect repaired by fix commit 3e47c8c (mode Orig, not in /repo any more):
+   before it the check raised IndexError on a repeated group that begins with an empty group *)
+Example C04_dup_raised_on_empty_group_before_fix_3e47c8c :
   check_for_duplicate_groups Orig [G []; G []] = Exn IndexError.
 Proof. exact dup_raises_on_empty_group. Qed.
+
+(* the code as it is reports them:  (),()   (()),(())   ((),(Red)),((Red),()) *)
+Example C04_dup_reports_repeated_empty_groups :
+  check_for_duplicate_groups Fx [G []; G []] = Ok [K_TAG_REPEATED_GROUP] /\
+  check_for_duplicate_groups Fx [G [G []]; G [G []]] = Ok [K_TAG_REPEATED_GROUP] /\
+  check_for_duplicate_groups Fx [G [G []; G [Red]]; G [G [Red]; G []]] = Ok [K_TAG_REPEATED_GROUP].
+Proof. exact dup_total_on_empty_groups. Qed.
+
+(* non-vacuity of C04_dup_complete_fixed below the top level: a reordered copy two levels down *)
+Example C04_nonvacuous_deep :
+  forallb wft ex_deep = true /\
+  In [G [Red; Blue]; Green; G [Blue; Red]] (all_levels ex_deep) /\
+  check_for_duplicate_groups Fx ex_deep = Ok [K_TAG_REPEATED_GROUP].
+Proof. exact ex_deep_ok. Qed.
